@@ -107,3 +107,11 @@ func init() {
 		Assumptions: []string{"reference semantics of DESIGN.md section 4 with env-backed atoms made optional", "environment variables VQ_A / VQ_O are set only around the declaration of the application under test and unset afterwards"},
 	})
 }
+
+func init() {
+	addProp(&propDef{
+		ID: "C08", Check: "syntax", Level: "exploration",
+		Rule: "(i) every non-empty string up to the length bound over 20 byte-class representatives, (ii) every sequence of lexemes up to the bound joined by nothing / a space / a tab, each against two declaration sets so that every name occurs declared and undeclared; reference = leftmost-longest tokenizer of the lexical conventions (DESIGN.md 4.5) + generic Earley recogniser over the EBNF given as data + the two context conditions; judged: compiled <=> well-formed, error position within the first offending lexeme and <= len(spec), no hook runs on rejection, tokens of an accepted spec partition its non-blank bytes; non-trivial = the string lexes to >= 2 tokens or is rejected at a position > 0",
+		Assumptions: []string{"lexical conventions not fixed by the documentation are taken from the code and listed in DESIGN.md 4.5 (e.g. `--` is the end-of-options token only before a space or the end of the string)"},
+	})
+}
